@@ -658,7 +658,36 @@ func run(c *core.Ctx) {
 			}
 		}
 	}
+	// the answer of one direction handed to the other one as the next call of the same fresh process:
+	// irregular words in every spelling of case (the answer keeps the first letter only), bare and prefixed
+	feedWords := []string{"person", "man", "tooth", "child", "move", "zombie", "sex", "foot", "mouse", "ox"}[:c.Pick(5, 10)]
+	spellings := []func(string) string{
+		func(w string) string { return w },
+		func(w string) string { return strings.ToUpper(w[:1]) + w[1:] },
+		strings.ToUpper,
+		func(w string) string { return w[:1] + strings.ToUpper(w[1:]) },
+	}
+	for _, w := range feedWords {
+		plural, ok := single(c, Op{0, q(w)})
+		if !ok {
+			break
+		}
+		for d, base := range []string{w, unq(plural)} {
+			for _, sp := range spellings {
+				for _, pf := range []string{"", "sales-"} {
+					first := Op{d, q(pf + sp(base))}
+					r, ok := single(c, first)
+					if !ok || strings.HasPrefix(unq(r), "PANIC") {
+						continue
+					}
+					do([]Op{first, {1 - d, r}})
+				}
+			}
+		}
+	}
 	wg.Wait()
+	c.Bound("fresh_process_fed_back_words", feedWords)
+	c.Bound("fresh_process_fed_back_shape", "d(x) then the other direction on d(x)'s answer; x = irregular word or its plural, 4 spellings of case, bare and behind a prefix")
 	c.Bound("fresh_process_sequence_ops", seqOps)
 	c.Bound("fresh_process_sequence_len", c.Pick(2, 3))
 
